@@ -165,7 +165,7 @@ def run(ctx: Ctx) -> None:
 
     leaves = QUICK_LEAVES if quick else FULL_LEAVES
     nO = len(L.operands(list(leaves)))
-    tasks = [('e2', leaves, ai) for ai in range(nO)]
+    tasks = [('e2', leaves, ai, op) for ai in range(nO) for op in L.BINOPS]
     _stage(ctx, 'programs-expressions-depth-2', tasks, total,
            budget=20 if quick else 240)
 
